@@ -244,6 +244,8 @@ def _session(worker: str, sc: dict) -> dict:
 
     async def client(io):
         rec = _CUR[0]
+        if sc.get("fail_at_write") is not None:
+            _reset_at_write(io, worker, int(sc["fail_at_write"]))
         for act in sc["client"]:
             k = act[0]
             if k == "send":
@@ -260,7 +262,7 @@ def _session(worker: str, sc: dict) -> dict:
                 io.fail_writes()
             elif k == "h2req":
                 if h2c[0] is None:
-                    h2c[0] = C.H2Client()
+                    h2c[0] = C.H2Client(initial_window=sc.get("h2_window"))
                 cl = h2c[0]
                 body = None if act[2] is None else s2b(act[2])
                 sids.append(cl.request(C.h2_headers("POST" if body is not None or not act[3] else "GET", act[1], authority=act[4] if len(act) > 4 else "x"), body, end=act[3]))
@@ -284,6 +286,33 @@ def _session(worker: str, sc: dict) -> dict:
     fn = R.run_asyncio if worker == "asyncio" else R.run_trio
     res = fn(cfg, "h2" if sc["proto"] == "h2" else None, client, sc["apps"], tail=sc.get("tail", 30.0), terminate_at=sc.get("terminate_at"))
     return res
+
+
+def _reset_at_write(io: Any, worker: str, k: int) -> None:
+    """the peer resets the connection once the transport has accepted `k` writes: from then on every write fails (on asyncio
+    already the `drain()` of the k-th), and the reading side sees the reset as well"""
+    base = type(io)
+    state = {"flag": bool(io.__dict__.pop("_fail", False))}
+
+    def get(self) -> bool:
+        if not state["flag"] and len(self.writes) >= k:
+            state["flag"] = True
+            self.rec.label("envFailAuto")
+            if worker == "asyncio":
+                if not self.reader.eof:
+                    self.reader.eof = True
+                    self.reader.q.put_nowait(ConnectionResetError())
+            else:
+                import trio
+                if not self.eof_sent:
+                    self.eof_sent = True
+                    self.send_ch.send_nowait(trio.BrokenResourceError())
+        return state["flag"]
+
+    def set_(self, v: bool) -> None:
+        state["flag"] = bool(v)
+
+    io.__class__ = type("ResetAtWrite" + base.__name__, (base,), {"_fail": property(get, set_)})
 
 
 _RUN = {"asyncio": R._isolated(lambda sc: _session("asyncio", sc)), "trio": R._isolated(lambda sc: _session("trio", sc))}
@@ -366,6 +395,10 @@ def to_trace(res: dict, sc: dict, worker: str) -> Tuple[dict, dict]:
             now = t
 
     app_paths = {a["id"]: a["scope"]["path"] for a in res["apps"]}
+    if sc.get("fail_at_write") is not None:
+        labels.append({"op": "failAfter", "k": int(sc["fail_at_write"])})
+    if sc["proto"] == "h2" and sc.get("h2_window") == 0:
+        labels.append({"op": "h2NoCredit"})
     send_i: Dict[int, int] = {}
     # which application owns which queue: a `receive()` call directly follows a label of the same application task
     q_app: Dict[int, int] = {}
@@ -676,6 +709,9 @@ def analyse(res: dict, sc: dict, facts: dict) -> dict:
         ended = [a[0] for a in x["access"] if a[1] is not None]
         x["resp_end"] = min(ended) if ended else None
     ct = client_times(sc)
+    auto = next((lab[0] for lab in res["labels"] if lab[1] == "envFailAuto"), None)
+    if auto is not None:
+        ct["gone_at"] = auto if ct["gone_at"] is None else min(ct["gone_at"], auto)
     return {"instances": inst, "closed_at": res["closed_at"], "done_at": (res["handler_done"] or [None])[0], "live_tasks": res["live_tasks"],
             "waits": waits, "terminated_at": term_at, "read_gone_at": read_gone, "client": ct, "error": res["error"], "loop_errors": res["loop_errors"],
             "stuck": bool(res.get("stuck_session")), "T": int(round(sc["T"] * 1000)),
@@ -738,7 +774,7 @@ BODY = {"type": "http.response.body", "body": b"ok"}
 BODY_MORE = {"type": "http.response.body", "body": b"o", "more_body": True}
 BODY_LAST = {"type": "http.response.body", "body": b"k"}
 APP_KINDS = ["respond", "read_respond", "sleep_respond", "start_sleep_body", "disconnect_then_respond", "raise_before", "raise_mid",
-             "return_early", "wait_disconnect", "respond_then_wait"]
+             "return_early", "wait_disconnect", "respond_then_wait", "finish_after_disconnect", "stream_three"]
 
 
 def app_script(kind: str, d: float) -> list:
@@ -750,6 +786,10 @@ def app_script(kind: str, d: float) -> list:
         return [["recv"], ["sleep", d], ["send", START], ["send", BODY]]
     if kind == "start_sleep_body":
         return [["send", START_CHUNKED], ["send", BODY_MORE], ["sleep", d], ["send", BODY_LAST]]
+    if kind == "finish_after_disconnect":       # a streaming application that ignores the disconnect and ends its response later
+        return [["send", START_CHUNKED], ["send", BODY_MORE], ["recv_until_disconnect"], ["sleep", d], ["send", BODY_LAST]]
+    if kind == "stream_three":
+        return [["send", START_CHUNKED], ["send", BODY_MORE], ["send", BODY_MORE], ["send", BODY_LAST]]
     if kind == "disconnect_then_respond":
         return [["recv_until_disconnect"], ["send", START], ["send", BODY]]
     if kind == "raise_before":
@@ -932,7 +972,39 @@ def canonical(T: float) -> List[dict]:
         {**base, "name": "h2_get", "proto": "h2", "client": [["h2req", "/r0", None, True]], "apps": [resp]},
         {**base, "name": "h2_two_rst", "proto": "h2", "client": [["h2req", "/r0", None, True], ["h2req", "/r1", "abc", True], ["h2rst", 0]],
          "apps": [app_script("wait_disconnect", 0), resp]},
+        # the client resets the only stream; its streaming application ignores the disconnect and ends the response 0.6 T later
+        {**base, "name": "h2_rst_late_finish", "proto": "h2", "client": [["h2req", "/r0", None, True], ["h2rst", 0]],
+         "apps": [app_script("finish_after_disconnect", 0.6 * T)]},
+        {**base, "name": "h1_reset_late_finish", "client": [["send", h0], ["reset"]], "apps": [app_script("finish_after_disconnect", 0.6 * T)]},
     ]
+    return out
+
+
+def write_fault_corpus() -> List[dict]:
+    """the peer resets at EVERY write of a response (head, each chunk, the terminator / end of message, error responses, the
+    websocket 101 and frames) on HTTP/1; on HTTP/2 the client goes away / resets the stream / sends GOAWAY while the end of
+    the body waits for flow-control credit (client window 0)"""
+    out: List[dict] = []
+    head, chunks = h1_req_bytes(0, "POST", 10)
+    wc = C.WsClient(path="/r0")
+    ws_req = b2s(wc.h1_request())
+    h1_apps = {"stream_three": (app_script("stream_three", 0), 5), "read_respond": (app_script("read_respond", 0), 4),
+               "return_early": (app_script("return_early", 0), 3), "raise_mid": (app_script("raise_mid", 0), 3),
+               "start_sleep_body": (app_script("start_sleep_body", 0.2), 4)}
+    for name, (script, kmax) in h1_apps.items():
+        for k in range(1, kmax + 1):
+            out.append({"family": "write_fault", "key": ["h1", name, k], "proto": "h1", "T": 1, "cap": 10, "server_names": None, "terminate_at": None,
+                        "fail_at_write": k, "apps": [script], "client": [["send", head + "".join(chunks)], ["sleep", 3], ["eof"]], "tail": 8})
+    for k in (1, 2):
+        out.append({"family": "write_fault", "key": ["h1", "404", k], "proto": "h1", "T": 1, "cap": 10, "server_names": ["good"], "terminate_at": None,
+                    "fail_at_write": k, "apps": [app_script("respond", 0)], "client": [["send", h1_req_bytes(0, host="bad")[0]], ["sleep", 3], ["eof"]], "tail": 8})
+        out.append({"family": "write_fault", "key": ["ws", "accept_echo_close", k], "proto": "h1", "T": 1, "cap": 10, "server_names": None, "terminate_at": None,
+                    "fail_at_write": k, "apps": [WS_APPS["accept_echo_close"]], "client": [["send", ws_req], ["sleep", 3], ["eof"]], "tail": 8})
+    for name in ("respond", "stream_three", "return_early"):
+        for leave in ("eof", "reset", "h2rst", "h2goaway"):
+            act = [leave] if leave in ("eof", "reset", "h2goaway") else ["h2rst", 0]
+            out.append({"family": "write_fault", "key": ["h2", name, leave], "proto": "h2", "T": 1, "cap": 10, "server_names": None, "terminate_at": None,
+                        "h2_window": 0, "apps": [app_script(name, 0)], "client": [["h2req", "/r0", None, True], ["sleep", 0.5], act, ["sleep", 3], ["eof"]], "tail": 8})
     return out
 
 
